@@ -59,7 +59,7 @@ def strategy(draw, tier):
 
 def slice_reference(block, fs, fr, kw):
     """flattened-epoch analysis of a 2-D block (n_epochs, L) with one option set"""
-    flat = gc.reference(block.flatten(), fs, fr, kw, return_samples=True)
+    flat = gc.isolated(gc.reference, block.flatten(), fs, fr, kw, return_samples=True)
     return ref.ref_epochs(flat, block.shape[1], block.shape[0])
 
 
@@ -84,7 +84,7 @@ def check(case, rec):
         return opts
     try:
         if axis == (0, 1):
-            refs = [[gc.reference(X[i, j], fs, fr, gc.materialise(opt_for(i, j)), return_samples=rs) for j in range(n1)] for i in range(n0)]
+            refs = [[gc.isolated(gc.reference, X[i, j], fs, fr, gc.materialise(opt_for(i, j)), return_samples=rs) for j in range(n1)] for i in range(n0)]
         elif axis == 0:
             refs = [slice_reference(X[i], fs, fr, gc.materialise(opt_for(i, 0))) for i in range(n0)]
         else:
